@@ -16,7 +16,7 @@ var environ = os.Environ
 // of np.
 func eachVariableInNs(ev *eval.Evaler, p np.Path, ns string, f func(s string)) {
 	switch ns {
-	case "", ":":
+	case "":
 		ev.Global().IterateKeysString(f)
 		ev.Builtin().IterateKeysString(f)
 		eachDefinedVariable(p[len(p)-1], p[0].Range().From, f)
